@@ -235,3 +235,12 @@ def h10(ctx):
 
 
 RULES.append(h10)
+
+
+@rule("G1", doc="the stabiliser chain's base point is the lowest moved slot, i.e. it depends on how names sort: only a chain whose compositions follow the convention gives name-independent answers (shared with C10.G1)")
+def g1(ctx):
+    from . import c10
+    c10.g1(ctx)
+
+
+RULES.append(g1)
